@@ -62,7 +62,7 @@ def rename_spec(spec, m, rng):
     for key in ("tasks", "workers", "cumulative", "selects", "buffers", "constraints", "indicators", "assign", "objectives"):
         s[key] = [_rename_obj(o, m) for o in s.get(key, [])]
     # permute the declaration order within each stage
-    for key in ("tasks", "workers", "constraints", "indicators", "buffers"):
+    for key in ("tasks", "workers", "constraints", "indicators", "buffers", "assign"):
         rng.shuffle(s[key])
     # ForceApplyN refers to constraints by id and is built last by the builder: order-free
     s["name"] = "q"
@@ -168,6 +168,9 @@ class C14(Check):
             indicators=["ResourceIdle", "FromMathExpression"] if crowded else ["FromMathExpression", "ResourceUtilization", "NumberTasksAssigned", "Tardiness"] if with_obj or rng.random() < 0.2 else [],
             n_indicators=(1, 2), objectives=OBJECTIVES if with_obj else [], n_objectives=(1, 1),
         )
+        if rng.random() < 0.1:
+            # constraints built by looping over the tasks of a worker: exposed to declaration-order dependence
+            prof = gen.profile(**dict(gen.FOCUS["interrupted"], slack=(0, 4), objectives=OBJECTIVES if with_obj else [], n_objectives=(1, 1)))
         spec = gen.gen_spec(keyed_rng(run_seed, "spec"), prof)
         mapping = make_mapping(spec, keyed_rng(run_seed, "names"))
         twin = rename_spec(spec, mapping, keyed_rng(run_seed, "perm"))
@@ -306,7 +309,7 @@ class C14(Check):
                     continue
                 if ev.get("outcome") == "solution":
                     f = self.evaluate_event(plan, result, ev)
-                    v.unspecified += f.unspecified
+                    v.absorb_unspecified(f)
                     v.rules_checked += f.checked
                     for it in f.items:
                         if it["prop"] in self.props:
